@@ -55,7 +55,9 @@ func BuildGzip(s GzipSpec) ([]byte, []GzipMemberInfo, error) {
 		extra, _ := hex.DecodeString(m.Extra)
 		w.Name = m.Name
 		w.Comment = m.Comment
-		w.Extra = extra
+		if len(extra) > 0 {
+			w.Extra = extra
+		}
 		if m.MTime != 0 {
 			w.ModTime = time.Unix(int64(m.MTime), 0)
 		}
@@ -97,7 +99,7 @@ func BuildGzip(s GzipSpec) ([]byte, []GzipMemberInfo, error) {
 type ZipMember struct {
 	Name     string  `json:"name"`
 	Method   uint16  `json:"method"` // 0 store, 8 deflate
-	Mode     string  `json:"mode"`   // stream (sizes in a data descriptor) | raw (pre-sized header) | rawdd (pre-sized header and descriptor)
+	Mode     string  `json:"mode"`   // stream (library compresses, sizes in a data descriptor) | raw (pre-sized header, harness compresses) | rawdd (harness compresses, sizes in a data descriptor)
 	Comment  string  `json:"comment,omitempty"`
 	Extra    string  `json:"extra,omitempty"` // hex of well-formed extra records
 	Modified int64   `json:"modified,omitempty"`
@@ -126,8 +128,11 @@ type ZipMemberInfo struct {
 	ModTime        uint16
 	HasModified    bool
 	Modified       int64
-	Offset         int64 // of the local header, set after Close
+	Offset         int // of the local header
+	DataStart      int // of the (compressed) data
+	End            int // one past the member (including a data descriptor)
 	DataDescriptor bool
+	Streamed       bool // sizes and CRC are only in the data descriptor and the central directory
 }
 
 func deflateBytes(data []byte, level int) ([]byte, error) {
@@ -240,18 +245,19 @@ func BuildZip(s ZipSpec) ([]byte, []ZipMemberInfo, error) {
 		in.ModTime = fh.ModifiedTime
 		in.DataDescriptor = fh.Flags&0x8 != 0
 	}
-	// local header offsets: members are written back to back, so each one
-	// starts where the previous one ended; recompute from the known layout
-	off := int64(0)
+	// layout: members are written back to back; the local header carries the
+	// same extra field as the central one
+	off := 0
 	for i := range infos {
 		in := &infos[i]
 		in.Offset = off
-		// the local header carries the extra field as given at creation time,
-		// which for both modes equals the central one
-		off += 30 + int64(len(in.Name)) + int64(len(in.Extra)) + int64(in.CompressedSize)
+		in.DataStart = off + 30 + len(in.Name) + len(in.Extra)
+		off = in.DataStart + int(in.CompressedSize)
 		if in.DataDescriptor {
 			off += 16
 		}
+		in.End = off
+		in.Streamed = in.DataDescriptor // archive/zip zeroes the local sizes whenever a descriptor follows
 	}
 	return out, infos, nil
 }
